@@ -27,6 +27,8 @@ C = {
          'Listed messages (identity, order), last-N, the three counts and read-only-ness are defined in TLA+ and compared by TLC with what the real `list` prints, over model behaviours and random sessions dense in queries.', '4 C11'),
  'C12': ('model_checking', 'TLA+ Matcher!Refine accumulation: TLC explores command chains over an atom pool + replay + extensional comparison by TLC',
          'After every filter/breakpoint command the real matcher is evaluated on every recorded message; TLC compares that selection with Refine/SelLo/SelHi. Exhaustive for chains of <= 5 events over 11 commands, sampled for random chains of up to 12 commands.', '4 C12'),
+ 'C13': ('model_checking', 'TLA+ RunMode (child / helper thread / reader / main): TLC over all chunkings and interleavings with fairness + real subprocess runs in file, pipe and run mode validated by TLC and compared with the in-process run',
+         'TLC checks Delivered / AllBeforeStatus / StatusPropagated / Terminates on RunMode for every chunking and interleaving of four small streams; real main.py processes are run in the three modes for generated streams under several chunkings, delays, exit timings, statuses and argv with option look-alikes; displays must be identical across modes and equal to the line-by-line run, argv / WAYLAND_DEBUG / stdout / status checked, processed lines and status validated by TLC (TraceRunMode). The reader side of the real interleaving is the kernel\'s.', '4 C13'),
  'C14': ('model_checking', 'TLA+ LetterId: TLC invariants (shortlex increasing, no gaps, round trip) + table of the real letter functions validated by TLC + labels typed back as list matchers in session traces',
          'LetterId.tla defines the labels; TLC proves injectivity/no-gaps/round-trip through three letters, validates the tool\'s two functions entry by entry (through four letters in thorough, samples to 2^31), and validates sessions in which labels known from the generator\'s bookkeeping are used as `list` matchers (objects with > 26 incarnations, > 26 and > 702 connections).', '4 C14'),
  'C16': ('model_checking', 'TLA+ Session times/separators: TLC over gaps around one second with hidden messages + four concretisations per behaviour + trace validation',
